@@ -77,10 +77,10 @@ def history_failures(n=400):
         except Exception as e:  # noqa
             bad = 'exception ' + type(e).__name__
         if bad:
-            out.append({'input': [ord(c) for c in s], 'history': 'the text lexed just before (dropped): %r' % prev,
+            out.append({'input': [ord(c) for c in s], 'history': 'the text lexed just before (dropped): %s' % prev,
                         'observed': bad + ' (after lexing and dropping another text of the same length)'})
             break
-        prev = s
+        prev = repr(s)
         del s, toks
     return out
 
